@@ -325,8 +325,35 @@ example : newDateTime [.fin false 2500001 0, zero, .fin true 900000000 0] = none
 
 -- ================================================================ the host zone; Annex B; Date.parse; toJSON on generic objects
 
-/-- Dev setyear_invalid: d = new Date(NaN); d.setYear(99) stays NaN (B.2.5: t = +0, result 1999-01-01T00:00 local) -/
-example : (setLocal (.fixed 0) .year2 (newDate .nan) [.fin false 99 0]).2 = none ∧
+/-- The UTC entry points of the model — `newDate`, `observe`, `getTime`, `setUTC`, `setUTCS`, `newDateTime`, `toISOString`,
+    `toJSON`, `parseOfISO` — take no `Zone` argument, so nothing proved about them can depend on time.Local; the requests
+    that exercise them are interpreted after the zone token is dropped (`Driver.handleUTC`).  What does depend on the zone
+    is modelled separately (`observeLocal z`, `setLocal z`, `newDateTimeIn z`), and for a zero offset it coincides: -/
+theorem local_zero_is_utc (k : LSetter) (hk : k ≠ .year2) (d : DateObj) (args : List FV) :
+    setLocal (.fixed 0) k d args = setUTC k.base d args := Lem.local_zero_is_utc k hk d args
+
+/-- §15.9.1.7–.9 under any fixed whole-minute offset: the local getters, getYear and getTimezoneOffset are the §15.9.1
+    functions of LocalTime(t), for every integer t -/
+theorem local_getters_fixed (o t : Int) (ho : o % 60 = 0) :
+    observeLocal (.fixed o) (validState t) = Spec.observeLocal (.fixed o) (some t) := Lem.local_getters_fixed o t ho
+
+/-- … every local setter body is "split LocalTime(t), recompose, UTC(·)", for every integer t, offset and arguments -/
+theorem local_setter_core_fixed (o : Int) (k : Setter) (t : Int) (vs : List Int) (hk : k ≠ .time)
+    (h1 : 1 ≤ vs.length) (h2 : vs.length ≤ k.limit) :
+    let w := (applySetter k (newEcmaTime (Zone.wall (.fixed o) (stateTime t))) vs).goTimeCore
+    some (goUnixMilli ⟨Zone.dateToUnix (.fixed o) w.sec, w.nsec⟩) =
+      (Spec.setUTCRaw (toSpec k) (some (Spec.LocalTime (.fixed o) t)) (vs.map fvInt)).map (Spec.UTC (.fixed o)) :=
+  Lem.local_setter_core_fixed o k t vs hk h1 h2
+
+/-- … and the multi-argument constructor is UTC(MakeDate(MakeDay, MakeTime)) on ℤ^7 -/
+theorem local_ctor_core_fixed (o y m d h mi s ms : Int) :
+    let w := goDateMs y (m + 1) d h mi s ms
+    goUnixMilli ⟨Zone.dateToUnix (.fixed o) w.sec, w.nsec⟩ =
+      Spec.UTC (.fixed o) (Spec.MakeDate (Spec.MakeDay y m d) (Spec.MakeTime h mi s ms)) :=
+  Lem.local_ctor_core_fixed o y m d h mi s ms
+
+/-- B.2.5: d = new Date(NaN); d.setYear(99) is 1999-01-01T00:00 local, on both sides -/
+example : (setLocal (.fixed 0) .year2 (newDate .nan) [.fin false 99 0]).2 = some 915148800000 ∧
     Spec.setLocal (.fixed 0) .year2 none [.fin false 99 0] = some 915148800000 := by decide +kernel
 /-- Dev local_transition_hour: Europe/London, new Date(2015, 2, 29, 1, 30) (the hour skipped on 29 March 2015) -/
 example : newDateTimeIn .lon [.fin false 2015 0, .fin false 2 0, .fin false 29 0, one, .fin false 30 0] = some 1427592600000 ∧
@@ -339,24 +366,23 @@ example : newDateTimeIn .ny [.fin false 2015 0, .fin false 6 0, one, .fin false 
     newDateTimeIn .lon [.fin false 2015 0, .fin false 6 0, one, .fin false 12 0] = Spec.dateLocal .eu1996 [.fin false 2015 0, .fin false 6 0, one, .fin false 12 0] := by decide +kernel
 /-- Dev rfc1123_year_range: Date.parse(new Date(253402300800000).toUTCString()) -/
 example : parseOfUTCString (newDate (.fin false 253402300800000 0)) = none ∧ Spec.parseOfUTCString (some 253402300800000) = some 253402300800000 := by decide +kernel
-/-- Dev zone_abbrev_z: Date.parse(new Date(0).toString()) with time.Local = FixedZone("XYZ", 19800) -/
-example : parseOfToString (.fixed 19800) true (newDate zero) = none ∧ parseOfToString (.fixed 19800) false (newDate zero) = some 0 := by decide +kernel
-/-- Dev tojson_nonnumber_primitive -/
-example : toJSONGeneric .strNonNumeric true = .null ∧ Spec.toJSONGeneric .strNonNumeric true = .called ∧
-    toJSONGeneric .undef false = .null ∧ Spec.toJSONGeneric .undef false = .typeError := by decide
-/-- toJSON on a generic object agrees with §15.9.5.44 for every other primitive (finite domain, exhaustive) -/
-theorem toJSON_generic (p : Prim) (sp : Spec.Prim) (c : Bool)
-    (h : (p, sp) ∈ [(Prim.numFinite, Spec.Prim.numFinite), (.numNaN, .numNaN), (.numInf, .numInf), (.strNumeric, .strNumeric), (.boolTrue, .boolTrue)]) :
-    (toJSONGeneric p c = .null ↔ Spec.toJSONGeneric sp c = .null) ∧ (toJSONGeneric p c = .called ↔ Spec.toJSONGeneric sp c = .called) := by
-  simp only [List.mem_cons, List.mem_nil_iff, or_false, Prod.mk.injEq] at h
-  rcases h with ⟨rfl, rfl⟩ | ⟨rfl, rfl⟩ | ⟨rfl, rfl⟩ | ⟨rfl, rfl⟩ | ⟨rfl, rfl⟩ <;> cases c <;> decide
-/-- Dev parse_hour_24: Date.parse("2000-01-01T24:00:00Z") -/
-example : dateParseFamily [50,48,48,48,45,48,49,45,48,49,84,50,52,58,48,48,58,48,48,90] = some none ∧
-    Spec.parseFields 2000 1 1 24 0 0 0 1 0 0 = some 946771200000 := by decide +kernel
-/-- Dev parse_offset_minute_60: Date.parse("2000-01-01T00:00+00:60") -/
-example : dateParseFamily [50,48,48,48,45,48,49,45,48,49,84,48,48,58,48,48,43,48,48,58,54,48] = some (some 946681200000) ∧
+/-- toJSON on a generic object is §15.9.5.44 for every kind of primitive value and both kinds of toISOString
+    (finite domain, exhaustive) -/
+theorem toJSON_generic (c : Bool) :
+    toJSONGeneric .numFinite c = (match Spec.toJSONGeneric .numFinite c with | .null => .null | .called => .called | .typeError => .typeError) ∧
+    (∀ p sp, (p, sp) ∈ [(Prim.numFinite, Spec.Prim.numFinite), (.numNaN, .numNaN), (.numInf, .numInf), (.strNonNumeric, .strNonNumeric),
+        (.strNumeric, .strNumeric), (.undef, .undef), (.boolTrue, .boolTrue)] →
+      (toJSONGeneric p c = .null ↔ Spec.toJSONGeneric sp c = .null) ∧ (toJSONGeneric p c = .called ↔ Spec.toJSONGeneric sp c = .called) ∧
+      (toJSONGeneric p c = .typeError ↔ Spec.toJSONGeneric sp c = .typeError)) := by
+  constructor
+  · cases c <;> rfl
+  · intro p sp h
+    simp only [List.mem_cons, List.mem_nil_iff, or_false, Prod.mk.injEq] at h
+    rcases h with ⟨rfl, rfl⟩ | ⟨rfl, rfl⟩ | ⟨rfl, rfl⟩ | ⟨rfl, rfl⟩ | ⟨rfl, rfl⟩ | ⟨rfl, rfl⟩ | ⟨rfl, rfl⟩ <;> cases c <;> decide
+/-- Date.parse("2000-01-01T24:00:00Z") = 946771200000 and Date.parse("2000-01-01T00:00+00:60") = NaN on both sides -/
+example : dateParseFamily [50,48,48,48,45,48,49,45,48,49,84,50,52,58,48,48,58,48,48,90] = some (some 946771200000) ∧
+    Spec.parseFields 2000 1 1 24 0 0 0 1 0 0 = some 946771200000 ∧
+    dateParseFamily [50,48,48,48,45,48,49,45,48,49,84,48,48,58,48,48,43,48,48,58,54,48] = some none ∧
     Spec.parseFields 2000 1 1 0 0 0 0 1 0 60 = none := by decide +kernel
-/-- Dev date_function_utc: the model of `Date()` never agrees with `new Date().toString()` unless time.Local is named GMT -/
-example : dateFunctionAgrees false = false := rfl
 
 end OttoVerif.C12.Thm
